@@ -481,7 +481,7 @@ def run(ctx):
         op = diffs[0][1][0].split()[1] if diffs else None
         bias = {"spawn": "spawn", "run": "accept", "accept": "accept", "bind": "bind", "close": "stdio", "open": "stdio",
                 "ufd": "stdio", "fs_open": "fs", "fs_copyfile": "fs"}.get(op)
-        m = n * ctx.scale(6, 4)
+        m = min(n * 6, ctx.scale(900, 1500))          # bounded: keeps the thorough tier within its time budget
         sseeds = [ctx.rng.fork() for _ in range(m)]
         def mk2(i):
             return Gen(ctx, sseeds[i], sseeds[i].range(10, maxops + 10), bias if i % 3 else biases[i % len(biases)]).build()
